@@ -242,6 +242,9 @@ func runTCPProp(t *testing.T, id string, hostile bool, nontrivial func(*Stats) b
 		return
 	}
 	for _, f := range r.RegressFiles(".json") {
+		if raw, _ := os.ReadFile(f); strings.Contains(string(raw), "\"deny_client\"") || !strings.Contains(string(raw), "\"steps\"") {
+			continue // another stage's regress input
+		}
 		var rf tReplay
 		if err := vkit.LoadJSON(f, &rf); err != nil || rf.Script == nil {
 			t.Fatalf("bad regress file %s: %v", f, err)
